@@ -162,6 +162,9 @@ def run(ctx):
             if pr[0] in ("log-gaussian",) and x <= 0:
                 ok = False
             inside_all = inside_all and ok
+        if i % 2:
+            # the prior dictionary and the dictionary of values need not list the parameters in the same order
+            vals = dict(reversed(list(vals.items())))
         case = {"priors": priors, "values": vals}
         ctx.begin_case(case)
         P = DeterministicInference(names, M, priors)
@@ -246,7 +249,7 @@ def run(ctx):
                 case = {"priors": prs, "theta": theta}
                 ctx.begin_case(case)
                 inf = InferenceSetup(Model=M, exp_data=data, measurements=["A"], time_column="time", params_to_estimate=list(prs),
-                                     prior=prs, initial_conditions={"A": 1.0})
+                                     prior=(prs if (io + iz) % 2 else dict(reversed(list(prs.items())))), initial_conditions={"A": 1.0})
                 v = float(inf.cost_function(list(theta)))
                 ctx.evaluated()
                 if v != -math.inf:
